@@ -334,7 +334,11 @@ func (pl *cplPilot) notTaken(mn string) bool {
 	case 'z':
 		f, fa = c.Z, ca.Z
 	}
-	return f != cd.taken && fa != cd.taken
+	// On a tree where the two interpreters agree (C02) this is "falls through in both".  When their flags DIFFER the
+	// branch is still offered (it falls through in one of them): the other interpreter then takes it and leaves the
+	// assembler's instruction starts, which the run below reports - a flag the CPU computes wrongly is exactly how a
+	// not-taken branch of a straight-line program ends up taken
+	return f != cd.taken || fa != cd.taken
 }
 
 // cplGen assembles one random straight-line program with the real Emitter
